@@ -18,7 +18,11 @@ def _p(pid, **kw):
     PROPERTIES[pid] = kw
 
 
-NOT_APPLICABLE = {}
+NOT_APPLICABLE = {
+    "C12": "no contract was brought within reach in the time available: the claim reduces to tlexport.dpkt_dsb.Reader (block walk, byte order, if_tsresol / if_tsoffset arithmetic) over "
+           "dpkt's block classes and, for legacy pcap, lies entirely inside dpkt.pcap.Reader; only the container-agnostic part is proved elsewhere (run.packet_branches: everything "
+           "after (ts, buf) depends on ts and buf alone, the reader is chosen by -l only). Not re-attempted with another technique (DESIGN section 6).",
+}
 
 _p("C17", modules=["quic_varint", "quic_frame"], level="proof",
    level_text="Every obligation generated from the real source of quic_decode.py and quic_frame.py is discharged by z3 with no bound on "
@@ -162,7 +166,7 @@ _p("C09", modules=["keylog", "main_run", "demux"], level="other",
    bounded=[{"function": "keylog_reader.get_keys_from_string / Session.find_session_secrets", "bound": "<= 3 lines of key-log text, <= 2 key lines per selection", "counted_as": "bounded"}],
    not_under_contract=["dpkt_dsb.Reader / DecryptionSecretBlock.unpack (DSB position and byte order)", "QuicSession.set_tls_decryptors' own key-log loop (same comparison through bytes.fromhex)"])
 
-_p("C18", modules=["main_run", "demux"], level="other",
+_p("C18", modules=["main_run", "demux", "keylog"], level="other",
    technique="contract-based deductive verification of run() against recorder contracts + syntactic frame obligations",
    level_text="Determinism of sequential Python is the absence of a few things, each proved as an obligation: run() resets every module-level list before use (state of an earlier run "
               "cannot reach this one); run() opens exactly the input and output file and reads a key-log file iff -s is given (no cwd-relative defaults for -s); every (frame, ts) "
@@ -221,7 +225,40 @@ _p("C03", modules=["robustness", "demux", "ports", "quic_output", "main_run"], l
    assumptions=["every library call may raise on any input (cryptography, dpkt)"], trusted_base=[],
    not_under_contract=["tlexport.quic.quic_dissector.extract_quic_packet", "QuicSession.handle_packet/handle_quic_packet/decrypt_packet", "Session.generate_keys exception freedom"])
 
-_p("C01", modules=["record_protection"], level="other", level_text="in progress", level_note="in progress", explanation="in progress")
+_p("C01", modules=["record_protection", "framing", "keys", "cipher_suites", "tcp_output", "robustness", "metadata"], level="other",
+   technique="contract-based deductive verification of every link of the TLS pipeline (per-function contracts; primitives uninterpreted); composition on paper",
+   level_text="The pipeline is decomposed into links and each link's obligation is discharged on the real code: framing (records = frame(stream), BOUNDED); ServerHello parsing "
+              "(random, suite, compression, extension map incl. zero-length last extensions, version rule; bounded to 2 extensions); suite resolution (C14, exhaustive); key "
+              "schedules and installed keys (C15); handshake state machine (an encrypted handshake record advances exactly its sender's cipher state, iff that sender sent "
+              "ChangeCipherSpec); dispatch (finite: version x cipher class -> RFC record-protection function, total); record protection - for every decrypt_* function the "
+              "library primitive receives exactly the RFC's key (by direction), nonce, additional data and ciphertext, the result is the content with explicit IV, padding "
+              "and MAC removed, only the own direction's state advances and an authentication failure leaves the state unchanged; TLS 1.3 inner plaintext (content || type || "
+              "zeros -> content exported exactly for type 23); output (C06/C07).",
+   level_note="level 'other': the END-TO-END statement (exported bytes = application data sent) needs the induction over the record sequence of a connection - each link's "
+              "postcondition re-establishing the next link's precondition across session.py, decryptor.py and output_builder.py - which is a paper argument (DESIGN 4 C01); "
+              "AES/HMAC/etc. are uninterpreted; ClientHello parsing is a single slice (client random) and not separately contracted; compression (zlib) is not claimed",
+   design_ref="DESIGN.md 4 C01",
+   explanation="Every listed link is proved per function; what is not machine-checked is their composition into the whole-connection invariant and the cryptography itself.",
+   assumptions=["dec(enc(x)) = x for CBC/stream contexts; AEAD decrypt returns the protected plaintext or raises InvalidTag"],
+   trusted_base=["cryptography (AEAD, Cipher, modes)"], bounded=BOUNDED_FRAMING,
+   composition_assumptions=["induction over the record sequence: the Decryptor's per-direction state equals the sender's after the same records"],
+   not_under_contract=["Decryptor.inflate (compression)", "Session.handle_tls_client_hello (one slice)"])
+
+_p("C02", modules=["quic_session_c", "quic_output", "demux", "quic_pkn", "keys", "quic_varint", "quic_frame"], level="other",
+   technique="contract-based deductive verification of the links of the QUIC pipeline; one bounded link; dissector header parsing not under contract",
+   level_text="Links discharged on the real code: routing by connection ID / address (demux.quic_routing, any IDs incl. zero-length); header-protection removal and packet-number "
+              "reconstruction (C16); keys (C15: Initial once and for all, handshake/0-RTT/1-RTT, key update generations); decrypt_packet opens each packet with the decryptor "
+              "of its type/epoch, the reconstructed packet number and the RFC 9001 5.3 associated data (header through packet number) and handles the parsed frames once, in "
+              "order; frames (C17, unbounded); handle_frame appends STREAM (and CRYPTO) frames in order and registers NEW_CONNECTION_ID for its sender; Retry resets exactly the "
+              "handshake state; CRYPTO reassembly delivers the stream bytes in order for every arrival order (BOUNDED to 3 fragments); output grouping per capture timestamp "
+              "with direction and payload (transition relation + final flush).",
+   level_note="level 'other': extract_quic_packet's header field extraction (struct formats, DCID/SCID/token/length fields, coalesced packets) and check_key_epoch are NOT under "
+              "contract; the composition into 'one output datagram per input datagram' is on paper; AEADs are uninterpreted",
+   design_ref="DESIGN.md 4 C02",
+   explanation="All links except the dissector's long/short header field extraction are proved per function; the dissector is listed as unverified and the end-to-end composition is a paper argument.",
+   assumptions=[], trusted_base=["cryptography AEADs", "struct (dissector, not under contract)"],
+   bounded=[{"function": "QuicTlsSession.update_session", "bound": "a CRYPTO stream prefix cut into <= 3 fragments (any cut points, any order)", "counted_as": "bounded"}],
+   not_under_contract=["tlexport.quic.quic_dissector.extract_quic_packet (field extraction)", "QuicSession.check_key_epoch", "QuicTlsSession.handle_buffer/handle_client_hello/handle_server_hello"])
 
 _p("C13", modules=["metadata", "quic_output", "tcp_output", "robustness", "record_protection"], level="other",
    technique="contract-based deductive verification: two-run (product) contract on the record handler + builder contracts parametrised by the flag",
@@ -248,4 +285,4 @@ _p("C08", modules=["prefix", "framing", "tcp_output", "quic_output", "main_run",
    design_ref="DESIGN.md 4 C08", explanation="Causality of the fold is established by frame obligations and a bounded product contract; the crypto step is per record (C01) and the lifting is on paper.",
    assumptions=[], trusted_base=[], bounded=BOUNDED_FRAMING, not_under_contract=[])
 
-_p("C02", modules=["quic_session_c", "quic_output", "demux", "quic_pkn", "keys"], level="other", level_text="in progress", level_note="in progress", explanation="in progress")
+_p("C02", modules=["quic_session_c", "quic_output", "demux", "quic_pkn", "keys", "quic_varint", "quic_frame"], level="other", level_text="in progress", level_note="in progress", explanation="in progress")
